@@ -9,7 +9,7 @@
 
 use fpdec_core::{i128_div_rounded, ten_pow, Round};
 
-use crate::Decimal;
+use crate::{Decimal, DecimalError};
 #[cfg(doc)]
 use crate::RoundingMode;
 
@@ -36,27 +36,9 @@ impl Round for Decimal {
     /// assert_eq!(r.to_string(), "30");
     /// ```
     fn round(self, n_frac_digits: i8) -> Self {
-        if n_frac_digits >= self.n_frac_digits as i8 {
-            self
-        } else if n_frac_digits < self.n_frac_digits as i8 - 38 {
-            Self::ZERO
-        } else {
-            // n_frac_digits < self.n_frac_digits
-            let shift: u8 = (self.n_frac_digits as i8 - n_frac_digits) as u8;
-            let divisor = ten_pow(shift);
-            let coeff = i128_div_rounded(self.coeff, divisor, None);
-            if n_frac_digits >= 0 {
-                Self {
-                    coeff,
-                    n_frac_digits: n_frac_digits as u8,
-                }
-            } else {
-                // shift back
-                Self {
-                    coeff: coeff * ten_pow(-n_frac_digits as u8),
-                    n_frac_digits: 0,
-                }
-            }
+        match self.checked_round(n_frac_digits) {
+            Some(res) => res,
+            None => panic!("{}", DecimalError::InternalOverflow),
         }
     }
 
@@ -86,7 +68,21 @@ impl Round for Decimal {
         if n_frac_digits >= self.n_frac_digits as i8 {
             Some(self)
         } else if n_frac_digits < self.n_frac_digits as i8 - 38 {
-            Some(Self::ZERO)
+            // |self| < 10 ^ -n_frac_digits / 2, so the quotient is -1, 0 or
+            // 1, depending on the sign of self and the rounding mode (same
+            // as for +/-0.1).
+            let quot = i128_div_rounded(self.coeff.signum(), 10, None);
+            let exp = -i16::from(n_frac_digits);
+            if quot == 0 {
+                Some(Self::ZERO)
+            } else if exp > 38 {
+                None
+            } else {
+                Some(Self {
+                    coeff: quot * ten_pow(exp as u8),
+                    n_frac_digits: 0,
+                })
+            }
         } else {
             // n_frac_digits < self.n_frac_digits
             let shift: u8 = (self.n_frac_digits as i8 - n_frac_digits) as u8;
